@@ -576,6 +576,16 @@ def switch_labels(fn, b):
             return out
         if rv["r"] == "un" and rv["op"] == "Not":
             inner = rv["a"][0]
+            il = op_local(inner)
+            ids = [x for x in fn.defs().get(il, []) if not fn.is_cleanup(x[0])] if il is not None else []
+            if len(ids) == 1 and ids[0][1] is None and strip_generics(callee_name(ids[0][2])) in PRED_CALLS:
+                # `!p.is_null()` computed in a helper and tested by the caller: the predicate with the truth value inverted
+                call = ids[0][2]
+                nm_ = strip_generics(callee_name(call))
+                for v, tb in arms:
+                    out.append((tb, {"kind": "pred", "pred": PRED_CALLS[nm_], "arg": call["args"][0], "truth": not bool(int(v)), "def_block": ids[0][0]}))
+                out.append((other, {"kind": "pred", "pred": PRED_CALLS[nm_], "arg": call["args"][0], "truth": False, "def_block": ids[0][0]}))
+                return out
             for v, tb in arms:
                 out.append((tb, {"kind": "not", "of": inner, "truth": bool(int(v))}))
             out.append((other, {"kind": "not", "of": inner, "truth": True}))
